@@ -144,10 +144,10 @@ def run(pid, tier, seed, replay=None):
         with cf.ThreadPoolExecutor(max_workers=slots) as ex:
             res = {mcs[i]: r for i, r in ex.map(one, range(len(mcs)))}
 
-        def prefetched(module, c, timeout=900, workers=None, cfg_text=None):
+        def prefetched(module, c, timeout=900, workers=None, cfg_text=None, **kw):
             r = res.get((module, c))
             if r is None:
-                return orig(module, c, timeout=timeout, workers=workers, cfg_text=cfg_text)
+                return orig(module, c, timeout=timeout, workers=workers, cfg_text=cfg_text, **kw)
             if isinstance(r, Exception):
                 raise r
             return r
